@@ -1,6 +1,12 @@
-(* C18 -- predicates of the property, on inputs/outputs only (definitions only). *)
+(* C18 -- the property's predicates, stated on inputs and outputs only (definitions only).
+
+   [spec_value] is the sentence "each contextual argument takes the value given explicitly in the call,
+   else the value of the innermost enclosing context that sets it, else the method's default", written
+   directly (searching the stack from the innermost context outwards) -- unlike the model, which follows
+   the code (merge all dictionaries oldest to newest, overlay, update).
+   [declared_wires] says, per method, which resolved values the commands put on the wire must carry. *)
 From Coq Require Import ZArith List Bool String.
-Require Import Rig.Model.Base Rig.Generated.GenSignatures Rig.Model.Context.
+Require Import Rig.Model.Base Rig.Generated.GenSignatures Rig.Generated.GenCtxGeometry Rig.Model.Context.
 Import ListNotations.
 Open Scope string_scope.
 Open Scope list_scope.
@@ -8,3 +14,256 @@ Open Scope Z_scope.
 
 (* parameters of a signature are pairwise distinct (Python enforces it; checked on the generated list) *)
 Definition sig_wf (sg : msig) : Prop := NoDup (map fst (sg_params sg)).
+
+(* a dictionary given as a sequence of (key, value) pairs: the last pair with the key counts *)
+Fixpoint slast {A} (k : string) (l : list (string * A)) : option A :=
+  match l with
+  | [] => None
+  | (k', v) :: l' => match slast k l' with
+                     | Some w => Some w
+                     | None => if String.eqb k k' then Some v else None
+                     end
+  end.
+
+(* the value of the innermost enclosing context that sets n (the stack is oldest first) *)
+Fixpoint stack_lookup (n : string) (s : stack) : option value :=
+  match s with
+  | [] => None
+  | c :: inner => match stack_lookup n inner with
+                  | Some v => Some v
+                  | None => slast n c
+                  end
+  end.
+
+Fixpoint index_of (n : string) (l : list string) : option nat :=
+  match l with
+  | [] => None
+  | k :: r => if String.eqb n k then Some O else match index_of n r with Some i => Some (S i) | None => None end
+  end.
+
+(* given explicitly in the call: by keyword, or positionally *)
+Definition explicit_value (sg : msig) (pos : list value) (kw : list (string * value)) (n : string) : option value :=
+  match slast n kw with
+  | Some v => Some v
+  | None => match index_of n (map fst (sg_params sg)) with
+            | Some i => nth_error pos i
+            | None => None
+            end
+  end.
+
+(* n is an argument of the method: a parameter, or a keyword-only argument named to the decorator *)
+Definition is_arg (sg : msig) (n : string) : bool :=
+  name_in n (map fst (sg_params sg)) || name_in n (map fst (sg_kwonly sg)).
+
+(* the method's default (DRequired: none) *)
+Definition default_of (sg : msig) (n : string) : option default :=
+  match slast n (sg_kwonly sg) with
+  | Some d => Some d
+  | None => sassoc n (sg_params sg)
+  end.
+
+Definition ctx_or_default (sg : msig) (s : stack) (n : string) : option default :=
+  if is_arg sg n then
+    match stack_lookup n s with
+    | Some v => Some (DVal v)
+    | None => default_of sg n
+    end
+  else None.
+
+(* Some (DVal v): the argument has value v;  Some DRequired: a required argument nobody supplied;
+   None: n is not an argument of the method and was not passed *)
+Definition spec_value (sg : msig) (s : stack) (pos : list value) (kw : list (string * value)) (n : string)
+  : option default :=
+  match explicit_value sg pos kw n with
+  | Some v => Some (DVal v)
+  | None => ctx_or_default sg s n
+  end.
+
+(* ------------------------------------------------------------------ what the wire must carry *)
+Inductive sval : Type :=
+| SArg (n : string)          (* the resolved value ([spec_value]) of argument n of the method called *)
+| SConst (v : value)         (* a constant of the protocol (core 0, the broadcast address 255, ...) *)
+| SAny                       (* no claim *)
+| SInner (m n : string)      (* what method m (same class) resolves for its argument n when a call does not pass
+                                it: innermost context that sets n, else m's default *)
+| SVarg (i : nat)            (* the i-th extra positional argument *)
+| SKeyX (a : sval) | SKeyY (a : sval).    (* coordinates of the first key of a routing-table dictionary *)
+
+Inductive sroute : Type :=
+| RChip (x y : sval)                 (* MachineController: the connection chosen for chip (x, y) *)
+| RBmp (cab fr bd : sval).           (* BMPController: the connection chosen for (cabinet, frame, board) *)
+
+Record swire : Type := MkSW {
+  sw_kind : option Z;                (* None: no claim about which connection method *)
+  sw_route : sroute;
+  sw_x : sval; sw_y : sval; sw_p : sval;
+  sw_cmd : sval;
+  sw_disc : list (nat * Z * Z * Z);
+  sw_fields : list (fkind * nat * Z * sval)
+}.
+
+(* the call being judged *)
+Record callctx : Type := MkCC {
+  cc_ctl : ctl; cc_cls : string; cc_sig : msig; cc_stack : stack;
+  cc_pos : list value; cc_kw : list (string * value)
+}.
+
+Fixpoint den (g : callctx) (sv : sval) (v : value) : Prop :=
+  match sv with
+  | SArg n => spec_value (cc_sig g) (cc_stack g) (cc_pos g) (cc_kw g) n = Some (DVal v)
+  | SConst c => v = c
+  | SAny => True
+  | SInner m n => exists sg', find_sig (cc_cls g) m = Some sg' /\ ctx_or_default sg' (cc_stack g) n = Some (DVal v)
+  | SVarg i => nth_error (skipn (List.length (sg_params (cc_sig g))) (cc_pos g)) i = Some v
+  | SKeyX a => exists u, den g a u /\ key_x u = Some v
+  | SKeyY a => exists u, den g a u /\ key_y u = Some v
+  end.
+
+Definition field_den (g : callctx) (sf : fkind * nat * Z * sval) (f : fkind * nat * Z * value) : Prop :=
+  match sf, f with
+  | (k, i, sh, sv), (k', i', sh', v) => k = k' /\ i = i' /\ sh = sh' /\ den g sv v
+  end.
+
+(* connection_choice, as a relation: the connection k is the right one for the target *)
+Definition chip_connection_ok (c : ctl) (x y : value) (k : Z) : Prop :=
+  match c_width c, c_height c, c_root c, as_int x, as_int y with
+  | Some w, Some h, Some (rx, ry), Some xi, Some yi =>
+      (* the board holding (x, y) is the one whose Ethernet chip spinn5_local_eth_coord names (C19) *)
+      match cassoc (c18_local_eth_coord xi yi w h rx ry) (c_conns c) with
+      | Some k' => k = k'            (* a connection to that board is known: it is used *)
+      | None => k = 0                (* none known: the initial connection *)
+      end
+  | Some _, Some _, Some _, _, _ => False
+  | _, _, _, _, _ => k = 0           (* geometry not discovered: the initial connection *)
+  end.
+
+Definition bmp_connection_ok (c : ctl) (cab fr bd : value) (k : Z) : Prop :=
+  match as_int cab, as_int fr with
+  | Some ci, Some fi =>
+      match as_int bd with
+      | Some bi =>
+          match kassoc [ci; fi; bi] (c_bmp c) with
+          | Some k' => k = k'                                  (* the board's own connection *)
+          | None => kassoc [ci; fi] (c_bmp c) = Some k         (* else the frame's *)
+          end
+      | None => kassoc [ci; fi] (c_bmp c) = Some k
+      end
+  | _, _ => False
+  end.
+
+Definition route_den (g : callctx) (r : sroute) (k : Z) : Prop :=
+  match r with
+  | RChip x y => exists vx vy, den g x vx /\ den g y vy /\ chip_connection_ok (cc_ctl g) vx vy k
+  | RBmp a b d => exists va vb vd, den g a va /\ den g b vb /\ den g d vd /\ bmp_connection_ok (cc_ctl g) va vb vd k
+  end.
+
+(* the command w is what sw prescribes *)
+Definition wire_den (g : callctx) (sw : swire) (w : wire) : Prop :=
+  (match sw_kind sw with Some k => w_kind w = k | None => True end)
+  /\ route_den g (sw_route sw) (w_conn w)
+  /\ den g (sw_x sw) (w_x w) /\ den g (sw_y sw) (w_y w) /\ den g (sw_p sw) (w_p w)
+  /\ den g (sw_cmd sw) (w_cmd w)
+  /\ w_disc w = sw_disc sw
+  /\ Forall2 (field_den g) (sw_fields sw) (w_fields w).
+
+(* a call's commands [ws] (with final error [e]) against the prescription [sws]: command by command; an
+   error may cut the sequence short, success means all of them were sent *)
+Definition wires_den (g : callctx) (sws : list swire) (ws : list wire) (e : option err) : Prop :=
+  exists k, (k <= List.length sws)%nat /\ Forall2 (wire_den g) (firstn k sws) ws
+            /\ (e = None -> k = List.length sws) /\ e <> Some FuelErr.
+
+(* ------------------------------------------------------------------ the prescription, method by method *)
+Definition A := SArg.
+Definition C (z : Z) := SConst (VInt z).
+Definition app_at (arg : nat) (shift : Z) : (fkind * nat * Z * sval) := (FByte, arg, shift, SArg "app_id").
+
+Definition on_chip (kind : Z) (p cmd : sval) disc fields : swire :=
+  MkSW (Some kind) (RChip (A "x") (A "y")) (A "x") (A "y") p cmd disc fields.
+Definition broadcast (cmd : Z) disc fields : swire :=
+  MkSW (Some 0) (RChip (C 255) (C 255)) (C 255) (C 255) (C 0) (C cmd) disc fields.
+(* a read of the system-wide struct: the chip the caller named, the core that read_struct_field resolves *)
+Definition sv_read : list swire := [on_chip 1 (SInner "read_struct_field" "p") (SConst VNone) [] []].
+
+Definition mc_declared : list (string * list swire) :=
+  [ ("send_scp", [on_chip 0 (A "p") (SVarg 0) [] []]);
+    ("discover_connections", sv_read);
+    ("application", []);
+    ("get_software_version", [on_chip 0 (A "processor") (C SCP_sver) [] []]);
+    ("get_ip_address", [on_chip 0 (C 0) (C SCP_info) [] []]);
+    ("write", [on_chip 2 (A "p") (SConst VNone) [] []]);
+    ("read", [on_chip 1 (A "p") (SConst VNone) [] []]);
+    ("write_across_link", [on_chip 0 (C 0) (C SCP_link_write) [] [(FByte, 2%nat, 0, A "link")]]);
+    ("read_across_link", [on_chip 0 (C 0) (C SCP_link_read) [] [(FByte, 2%nat, 0, A "link")]]);
+    ("read_struct_field", [on_chip 1 (A "p") (SConst VNone) [] []]);
+    ("write_struct_field", [on_chip 2 (A "p") (SConst VNone) [] []]);
+    ("read_vcpu_struct_field", sv_read);
+    ("write_vcpu_struct_field", sv_read);
+    ("get_processor_status", sv_read);
+    ("get_iobuf", sv_read);
+    ("get_iobuf_bytes", sv_read);
+    ("get_router_diagnostics", [on_chip 1 (SInner "read" "p") (SConst VNone) [] []]);
+    ("iptag_set", [on_chip 0 (C 0) (C SCP_iptag) [(0%nat, 16, 255, IPTagCmd_set)] []]);
+    ("iptag_get", [on_chip 0 (C 0) (C SCP_iptag) [(0%nat, 16, 255, IPTagCmd_get)] []]);
+    ("iptag_clear", [on_chip 0 (C 0) (C SCP_iptag) [(0%nat, 16, 255, IPTagCmd_clear)] []]);
+    ("set_led", [on_chip 0 (C 0) (C SCP_led) [] []]);
+    (* fill: a fill command, or (unaligned) a write -- either way to the chip and core named *)
+    ("fill", [MkSW None (RChip (A "x") (A "y")) (A "x") (A "y") (A "p") SAny [] []]);
+    ("sdram_alloc", [on_chip 0 (C 0) (C SCP_alloc_free) [(0%nat, 0, 255, Alloc_alloc_sdram)] [app_at 0 8]]);
+    ("sdram_alloc_as_filelike",
+       [on_chip 0 (C 0) (C SCP_alloc_free) [(0%nat, 0, 255, Alloc_alloc_sdram)] [app_at 0 8]]);
+    ("sdram_free", [on_chip 0 (C 0) (C SCP_alloc_free) [(0%nat, 0, 255, Alloc_free_sdram_by_ptr)] []]);
+    ("flood_fill_aplx",
+       [broadcast SCP_nearest_neighbour_packet [(0%nat, 24, 255, NN_flood_fill_start)] [];
+        broadcast SCP_nearest_neighbour_packet [(0%nat, 24, 255, NN_flood_fill_end)] [app_at 1 24]]);
+    ("load_application",
+       [broadcast SCP_nearest_neighbour_packet [(0%nat, 24, 255, NN_flood_fill_start)] [];
+        broadcast SCP_nearest_neighbour_packet [(0%nat, 24, 255, NN_flood_fill_end)] [app_at 1 24];
+        broadcast SCP_signal [(1%nat, 20, 15, 4 + AppDiag_count)] [app_at 1 0]]);
+    ("send_signal", [broadcast SCP_signal [(1%nat, 20, 15, 0)] [(FByte, 1%nat, 16, A "signal"); app_at 1 0]]);
+    ("count_cores_in_state", [broadcast SCP_signal [(1%nat, 20, 15, 4 + AppDiag_count)] [app_at 1 0]]);
+    ("wait_for_cores_to_reach_state", [broadcast SCP_signal [(1%nat, 20, 15, 4 + AppDiag_count)] [app_at 1 0]]);
+    (* load_routing_tables: the chip is the dictionary's key (not a contextual argument); the application id is *)
+    ("load_routing_tables",
+       let kx := SKeyX (A "routing_tables") in let ky := SKeyY (A "routing_tables") in
+       [MkSW (Some 0) (RChip kx ky) kx ky (C 0) (C SCP_alloc_free) [(0%nat, 0, 255, Alloc_alloc_rtr)] [app_at 0 8];
+        MkSW (Some 0) (RChip kx ky) kx ky (C 0) (C SCP_router) [(0%nat, 0, 255, RouterOp_load)] [app_at 0 8]]);
+    ("load_routing_table_entries",
+       [on_chip 0 (C 0) (C SCP_alloc_free) [(0%nat, 0, 255, Alloc_alloc_rtr)] [app_at 0 8];
+        on_chip 0 (C 0) (C SCP_router) [(0%nat, 0, 255, RouterOp_load)] [app_at 0 8]]);
+    ("get_routing_table_entries", sv_read);
+    ("clear_routing_table_entries",
+       [on_chip 0 (C 0) (C SCP_alloc_free) [(0%nat, 0, 255, Alloc_free_rtr_by_app)] [app_at 0 8]]);
+    ("get_p2p_routing_table", sv_read);
+    ("get_chip_info", [on_chip 0 (C 0) (C SCP_info) [] []]);
+    ("get_working_links", [on_chip 0 (C 0) (C SCP_info) [] []]);
+    ("get_num_working_cores", sv_read);
+    ("get_system_info", sv_read) ].
+
+Definition to_board (bd cmd : sval) fields : swire :=
+  MkSW (Some 0) (RBmp (A "cabinet") (A "frame") bd) (C 0) (C 0) bd cmd [] fields.
+
+Definition bmp_declared : list (string * list swire) :=
+  [ ("send_scp", [to_board (A "board") (SVarg 0) []]);
+    ("get_software_version", [to_board (A "board") (C SCP_sver) []]);
+    (* power commands go to board 0 of the frame; the board named is the bit set in arg2 *)
+    ("set_power", [to_board (C 0) (C SCP_power) [(FBit, 1%nat, 0, A "board")]]);
+    ("set_led", [to_board (A "board") (C SCP_led) [(FBit, 1%nat, 0, A "board")]]);
+    ("read_fpga_reg", [to_board (A "board") (C SCP_link_read) []]);
+    ("write_fpga_reg", [to_board (A "board") (C SCP_link_write) []]);
+    ("read_adc", [to_board (A "board") (C SCP_bmp_info) []]) ].
+
+Definition declared_wires (cls m : string) : option (list swire) :=
+  if String.eqb cls "MC" then sassoc m mc_declared
+  else if String.eqb cls "BMP" then sassoc m bmp_declared
+  else None.
+
+(* ------------------------------------------------------------------ histories *)
+(* the op changes the innermost context of the level at which it stands: update_current_context, possibly
+   inside try blocks (which do not open a context); blocks opened by `with` only touch their own context *)
+Fixpoint updates_here (o : op) : bool :=
+  match o with
+  | OUpdate _ => true
+  | OTry blk => existsb updates_here blk
+  | _ => false
+  end.
+Definition no_update_here (blk : list op) : Prop := existsb updates_here blk = false.
